@@ -255,22 +255,63 @@ impl QueryFilter {
         }
     }
 
-    /// Extract predicates from an expression recursively
+    /// Extract predicates from an expression recursively.
+    ///
+    /// Top-level conjuncts become separate entries of `predicates` (all of them
+    /// must hold). A disjunction becomes a single `ColumnPredicate::Or` entry.
     fn extract_predicates_from_expr(expr: &Expr, predicates: &mut Vec<ColumnPredicate>) {
         match expr {
-            Expr::BinaryOp { left, op, right } => {
-                if let Some(pred) = Self::try_extract_comparison(left, op, right) {
-                    predicates.push(pred);
-                }
-                if matches!(op, BinaryOperator::And | BinaryOperator::Or) {
-                    Self::extract_predicates_from_expr(left, predicates);
-                    Self::extract_predicates_from_expr(right, predicates);
-                }
+            Expr::BinaryOp {
+                left,
+                op: BinaryOperator::And,
+                right,
+            } => {
+                Self::extract_predicates_from_expr(left, predicates);
+                Self::extract_predicates_from_expr(right, predicates);
             }
             Expr::Nested(inner) => {
                 Self::extract_predicates_from_expr(inner, predicates);
             }
-            _ => {}
+            other => {
+                if let Some(pred) = Self::expr_to_predicate(other) {
+                    predicates.push(pred);
+                }
+            }
+        }
+    }
+
+    /// Convert an expression into a predicate tree, or `None` if (part of) it is
+    /// not understood. `None` means "no constraint": rows are kept, never dropped.
+    fn expr_to_predicate(expr: &Expr) -> Option<ColumnPredicate> {
+        match expr {
+            Expr::Nested(inner) => Self::expr_to_predicate(inner),
+            Expr::BinaryOp {
+                left,
+                op: BinaryOperator::And,
+                right,
+            } => {
+                // An unsupported conjunct only widens the result, so keep the other side.
+                match (
+                    Self::expr_to_predicate(left),
+                    Self::expr_to_predicate(right),
+                ) {
+                    (Some(l), Some(r)) => Some(ColumnPredicate::And(Box::new(l), Box::new(r))),
+                    (Some(p), None) | (None, Some(p)) => Some(p),
+                    (None, None) => None,
+                }
+            }
+            Expr::BinaryOp {
+                left,
+                op: BinaryOperator::Or,
+                right,
+            } => {
+                // A disjunction can only be enforced if both sides are understood.
+                let l = Self::expr_to_predicate(left)?;
+                let r = Self::expr_to_predicate(right)?;
+                Some(ColumnPredicate::Or(Box::new(l), Box::new(r)))
+            }
+            Expr::BinaryOp { left, op, right } => Self::try_extract_comparison(left, op, right),
+            _ => None,
         }
     }
 
